@@ -50,6 +50,14 @@ func pickType(c *fw.Case, noStd bool) (reflect.Type, *jsonschema.ForOptions, str
 		if r.IntN(3) == 0 {
 			return gen.Pick(r, []reflect.Type{reflect.TypeFor[typecorpus.WithCustom](), reflect.TypeFor[typecorpus.WithCustomPtr]()}), customOpts(), "corpus-custom"
 		}
+		if r.IntN(4) == 0 {
+			// kinds For cannot translate, with their own marshalers and TypeSchemas entries; IgnoreInvalidTypes on or off
+			o := customOpts()
+			o.TypeSchemas[reflect.TypeFor[typecorpus.IDSet]()] = &jsonschema.Schema{Type: "array", Items: &jsonschema.Schema{Type: "integer"}}
+			o.TypeSchemas[reflect.TypeFor[typecorpus.Point]()] = &jsonschema.Schema{Type: "array", MinItems: jsonschema.Ptr(2), MaxItems: jsonschema.Ptr(2)}
+			o.IgnoreInvalidTypes = r.IntN(2) == 0
+			return gen.Pick(r, []reflect.Type{reflect.TypeFor[typecorpus.WithInvalidKinds](), reflect.TypeFor[[]typecorpus.WithInvalidKinds](), reflect.TypeFor[typecorpus.IDSet]()}), o, "corpus-invalid-kinds-with-entries"
+		}
 		return gen.Pick(r, typecorpus.WithStd), nil, "corpus-std"
 	default:
 		return gen.SafeRandType(r, gen.TypeOpts{MaxDepth: 2 + r.IntN(3), NoStd: noStd}), nil, "reflect"
